@@ -13,6 +13,7 @@ package main
 import (
 	"regexp"
 	"sort"
+	"strconv"
 	"strings"
 	"time"
 
@@ -116,7 +117,18 @@ func safeAdd(ft internaltypes.FilterTreeI, fl internaltypes.FlowI) (res string) 
 
 type polDecl struct {
 	name, method, url string
-	on                bool
+	rem, diag         []bool // enabled flags of the endpoint's remedies / diagnoses, in declaration order
+}
+
+func parseFlags(s string) []bool {
+	if s == "-" {
+		return nil
+	}
+	var out []bool
+	for _, f := range strings.Split(s, ",") {
+		out = append(out, f == "1")
+	}
+	return out
 }
 
 type state struct {
@@ -133,6 +145,7 @@ type state struct {
 	eps    []string
 	res    []*regexp.Regexp
 	subset bool
+	rl     *reloadWorld
 }
 
 func fmtNames(n []string) string {
@@ -217,6 +230,7 @@ func exec(c proto.Case, o *proto.Out) []string {
 	outs := make([]string, len(c.Ops))
 	st := &state{}
 	selMan, other := 0, 0
+	lifetime := false
 	for i, op := range c.Ops {
 		w := strings.Fields(op)
 		if len(w) == 0 {
@@ -251,6 +265,11 @@ func exec(c proto.Case, o *proto.Out) []string {
 			} else if len(w) == 2 && w[1] == "policy" {
 				st.mode = 2
 				outs[i] = "ok"
+			} else if len(w) == 2 && w[1] == "reload" {
+				st.mode = 3
+				st.rl = newReloadWorld()
+				defer st.rl.close()
+				outs[i] = "ok"
 			} else {
 				outs[i] = "bad-op"
 			}
@@ -280,12 +299,20 @@ func exec(c proto.Case, o *proto.Out) []string {
 			n, ok1 := kv("name")
 			m, ok2 := kv("m")
 			u, ok3 := kv("url")
-			on, ok4 := kv("on")
-			if !ok1 || !ok2 || !ok3 || !ok4 || st.mode != 2 {
+			on, okOn := kv("on")
+			rs, okR := kv("r")
+			ds, okD := kv("d")
+			if !ok1 || !ok2 || !ok3 || st.mode != 2 || !(okOn && !okR && !okD || !okOn && okR && okD) {
 				outs[i] = "bad-op"
 				break
 			}
-			st.pols = append(st.pols, polDecl{n, proto.Dec(m), proto.Dec(u), on == "1"})
+			d := polDecl{name: n, method: proto.Dec(m), url: proto.Dec(u)}
+			if okOn {
+				d.diag = []bool{on == "1"}
+			} else {
+				d.rem, d.diag = parseFlags(rs), parseFlags(ds)
+			}
+			st.pols = append(st.pols, d)
 			outs[i] = "ok"
 		case "global":
 			on, ok := kv("on")
@@ -295,6 +322,36 @@ func exec(c proto.Case, o *proto.Out) []string {
 			}
 			st.glob = on == "1"
 			outs[i] = "ok"
+		case "reload":
+			g, ok1 := kv("g")
+			es, ok2 := kv("eps")
+			if !ok1 || !ok2 || st.mode != 3 {
+				outs[i] = "bad-op"
+				break
+			}
+			eps, ok := parseReloadEps(es)
+			if !ok {
+				outs[i] = "bad-op"
+				break
+			}
+			outs[i] = st.rl.reload(g == "1", eps, o)
+		case "advance":
+			ms, ok := kv("ms")
+			n, err := strconv.ParseInt(ms, 10, 64)
+			if !ok || err != nil || n < 0 || st.mode != 3 {
+				outs[i] = "bad-op"
+				break
+			}
+			outs[i] = st.rl.advance(n)
+		case "managed?":
+			if st.mode != 3 || len(w) != 1 {
+				outs[i] = "bad-op"
+				break
+			}
+			outs[i] = st.rl.managed()
+			if st.rl.reloads >= 2 {
+				lifetime = true
+			}
 		case "build":
 			switch {
 			case len(w) != 1:
@@ -358,7 +415,7 @@ func exec(c proto.Case, o *proto.Out) []string {
 			outs[i] = "bad-op"
 		}
 	}
-	if selMan > 0 && other > 0 {
+	if (selMan > 0 && other > 0) || lifetime {
 		o.NonTrivial(strings.Join(c.Ops, "|") + "#" + strings.Join(outs, "|"))
 	}
 	return outs
@@ -387,12 +444,12 @@ func (st *state) buildPolicies(o *proto.Out) string {
 		pc.Global.Diagnosis = []sharedConfig.Diagnosis{{Name: "g", Enabled: true}}
 	}
 	for _, p := range st.pols {
-		pc.Endpoints = append(pc.Endpoints, sharedConfig.EndpointConfig{URL: p.url, Method: p.method,
-			Diagnosis: []sharedConfig.Diagnosis{{Name: p.name, Enabled: p.on}}})
+		pc.Endpoints = append(pc.Endpoints, p.endpointConfig())
 	}
 	eps := make([]sharedConfig.EndpointConfig, len(pc.Endpoints))
 	for i, e := range pc.Endpoints {
 		e.Diagnosis = append([]sharedConfig.Diagnosis(nil), e.Diagnosis...)
+		e.Remedies = append([]sharedConfig.Remedy(nil), e.Remedies...)
 		eps[i] = e
 	}
 	pt, err := config.BuildEndpointPolicyTree(eps)
@@ -406,7 +463,19 @@ func (st *state) buildPolicies(o *proto.Out) string {
 	return st.setRegistered(config.BuildHAProxyEndpointsRequest(pc))
 }
 
-// selectPolicies: the selection of runner.getDiagnoses (unexported; five lines) on the REAL lookup result and
+// endpointConfig: remedies without a configuration have the undefined type, which the duplicate check ignores
+func (p polDecl) endpointConfig() sharedConfig.EndpointConfig {
+	e := sharedConfig.EndpointConfig{URL: p.url, Method: p.method}
+	for _, on := range p.rem {
+		e.Remedies = append(e.Remedies, sharedConfig.Remedy{Name: p.name, Enabled: on})
+	}
+	for _, on := range p.diag {
+		e.Diagnosis = append(e.Diagnosis, sharedConfig.Diagnosis{Name: p.name, Enabled: on})
+	}
+	return e
+}
+
+// selectPolicies: the selection of runner.getRemedies / runner.getDiagnoses (unexported; five lines) on the REAL lookup result and
 // the REAL policy map: the endpoint policies with an enabled plugin that the engine applies to the request.
 func (st *state) selectPolicies(method, url string) []string {
 	res := st.pt.Lookup(url)
@@ -417,9 +486,18 @@ func (st *state) selectPolicies(method, url string) []string {
 	if !found {
 		return nil
 	}
+	// enabled remedies first, then enabled diagnoses; one name per endpoint policy
 	var out []string
+	seen := map[string]bool{}
+	for _, r := range pol.Remedies {
+		if r.Enabled && !seen[r.Name] {
+			seen[r.Name] = true
+			out = append(out, r.Name)
+		}
+	}
 	for _, d := range pol.Diagnosis {
-		if d.Enabled {
+		if d.Enabled && !seen[d.Name] {
+			seen[d.Name] = true
 			out = append(out, d.Name)
 		}
 	}
@@ -427,6 +505,7 @@ func (st *state) selectPolicies(method, url string) []string {
 }
 
 func main() {
+	ensureAdminPort()
 	zerolog.SetGlobalLevel(zerolog.Disabled)
 	proto.Main(proto.Harness{Rule: rule, Gen: gen, Exec: exec})
 }
